@@ -112,6 +112,12 @@ def scenarios(rng):
     S.append(('replace/in-object-missing', b1 + item, 'repocs 1 =6e6f2d737563682d6b6579 2', ['del 2'], [1]))
     S.append(('setstring/longer', ['cstr 1 ' + hx(b'short')], 'setstr 1 ' + hx(b'a much longer value than before ' * rng.choice([1, 10])), [], [1]))
     S.append(('setstring/shorter', ['cstr 1 ' + hx(b'a long enough value')], 'setstr 1 ' + hx(b'tiny'), [], [1]))
+    # every relation between the two lengths, also far apart (an implementation may decide to move the value)
+    oldlen = rng.choice([1, 8, 63, 64, 65, 100, 300, 5000])
+    for nm, newlen in (('much-shorter', rng.choice([0, 1, 2])), ('shorter-by-63', max(oldlen - 63, 0)), ('shorter-by-64', max(oldlen - 64, 0)), ('shorter-by-65', max(oldlen - 65, 0)),
+                       ('same-length', oldlen), ('longer-by-1', oldlen + 1), ('much-longer', oldlen + rng.choice([64, 1000]))):
+        S.append(('setstring/' + nm, ['cobj 1', 'cstr 2 ' + hx(bytes(rng.randrange(1, 256) for _ in range(oldlen))), 'addo 1 =76 2', 'clr 2', 'geto 1 =76 2'],
+                  'setstr 2 ' + hx(bytes(rng.randrange(1, 256) for _ in range(newlen))), ['clr 2'], [1]))
     return S
 
 
